@@ -58,7 +58,7 @@ def setup(ctx):
 def get_db(ctx, setp):
     import gffutils
 
-    key = (setp["seed"], setp["n"])
+    key = (setp["seed"], setp["n"], bool(setp.get("moved")))
     if key not in _DBS:
         for k in list(_DBS):
             try:
@@ -66,7 +66,24 @@ def get_db(ctx, setp):
             except Exception:
                 pass
         SET = G.make_set(setp["seed"], setp["n"])
-        db = gffutils.create_db(SET["text"], ":memory:", from_string=True)
+        if setp.get("moved"):
+            # the same feature set, but every line is written at a placeholder position and moved to its real
+            # coordinates by a transform: the stored bin has to be computed from the coordinates actually stored
+            where = {f["id"]: (f["start"], f["end"]) for f in SET["features"]}
+            lines = []
+            for ln in SET["text"].split("\n"):
+                c = ln.split("\t")
+                if len(c) >= 9 and not ln.startswith("#"):
+                    c[3], c[4] = "1", "2"
+                lines.append("\t".join(c))
+
+            def move(f):
+                f.start, f.end = where[f.attributes["ID"][0]]
+                return f
+            db = gffutils.create_db("\n".join(lines), ":memory:", from_string=True, transform=move)
+            ctx.mon("databases built through a coordinate-moving transform")
+        else:
+            db = gffutils.create_db(SET["text"], ":memory:", from_string=True)
         rows = db.conn.execute("SELECT id, seqid, featuretype, start, end, strand, bin FROM features").fetchall()
         stored = {r[0]: tuple(r)[1:] for r in rows}
         model = {f["id"]: (f["seqid"], f["featuretype"], f["start"], f["end"], f["strand"]) for f in SET["features"]}
@@ -268,6 +285,8 @@ def run(ctx):
     n = 250 if quick else 300
     for si in range(nsets):
         setp = {"seed": rng.randrange(1 << 30), "n": n}
+        if rng.random() < 0.25:
+            setp["moved"] = True
         _, SET, _ = get_db(ctx, setp)
         for _ in range(nq):
             q = G.gen_query(rng, SET)
